@@ -249,10 +249,63 @@ def run(ctx, rep):
     rep.floor("R4", 4)
     check_explicit_bond_symbols(ctx, rep)
     check_no_stale_acceptance(ctx, rep)
+    # R9: the decoder's atom reader keeps every written field (element, isotope, charge, hydrogens, chirality mark)
+    from rules import symlang
+    symlang.check_reader_keeps_groups(ctx, rep, "R9")
+    check_bond_symbol_table(ctx, rep)
     # R8: "every SMILES the encoder accepts with strict=True": the acceptance test is count > capacity for every atom,
     # capacity being the property that subtracts explicit hydrogens (the comparator rule of C06/Q1)
     from rules.C06 import check_acceptance
     check_acceptance(ctx, rep, "R8")
+
+
+def check_bond_symbol_table(ctx, rep):
+    """R3 (both directions of the bond spelling): smiles_to_bond reads every bond symbol of SMILES_BOND_ORDERS as the order
+    the table gives it (':' stays 1.5, so that an explicitly written aromatic bond is kekulized like an implicit one), and
+    the ring / branch prefixes the encoder prints for a bond of order k are read by the decoder's tables as type k."""
+    fo = ctx.fold
+    s2b = ctx.fn("selfies.utils.smiles_utils.smiles_to_bond")
+    table = fo.global_value("selfies.utils.smiles_utils", "SMILES_BOND_ORDERS")
+    if not isinstance(table, dict) or not table:
+        raise AnalysisError("SMILES_BOND_ORDERS does not fold")
+    for c, want in sorted(table.items(), key=lambda kv: str(kv[0])):
+        got = fo.call_function(s2b, [c], {})
+        ok = isinstance(got, tuple) and len(got) == 2 and got[0] == want and type(got[0]) is type(want)
+        rep.ob("R3", ok, s2b.node, s2b, construct="smiles_to_bond(%r)" % c, how="order %r as in SMILES_BOND_ORDERS" % (want,),
+               witness=None if ok else "bond symbol %r is read as %r, the table says order %r" % (c, got, want), nontrivial=True,
+               key="read/%s" % c)
+    # prefix printers: order k -> prefix -> decoder table type k
+    from rules.shared import fragment_printer, token_templates
+    import re as _re
+    shape = _re.compile(r"^\[\{\}([A-Za-z]+)\{\}\]$")
+    _encf, frag = fragment_printer(ctx)
+    tabs = {"Ring": fo.global_value("selfies.grammar_rules", "_PROCESS_RING_CACHE"), "Branch": fo.global_value("selfies.grammar_rules", "_PROCESS_BRANCH_CACHE")}
+    for owner, node, tmpl, args in token_templates(ctx, frag):
+        m = shape.match(tmpl)
+        if not m or m.group(1) not in tabs or not isinstance(args[0], ast.Call):
+            continue
+        site = [s_ for s_ in ctx.cg.sites(owner) if s_.node is args[0]]
+        if not site or len(site[0].callees) != 1:
+            continue
+        P = site[0].callees[0]
+        kind = m.group(1)
+        for k in (1, 2, 3):
+            bonds = {p: Obj(("bond", p), "selfies.mol_graph.DirectedBond", {"order": Num(Lin.const(k)), "stereo": Con(None)})
+                     for p in P.posparams[:len(args[0].args)]}
+            extra = {kw.arg: Con(kw.value.value) for kw in args[0].keywords if isinstance(kw.value, ast.Constant)}
+            fr = Engine(ctx, Hooks()).run_function(P, dict(bonds, **extra))
+            vals = {v.value for st, v in fr.returns if isinstance(v, Con) and isinstance(v.value, str)}
+            probs = []
+            if len(vals) != 1 or len(vals) != len({repr(v) for st, v in fr.returns}):
+                probs.append("prefix for order %d is not one constant string (%s)" % (k, sorted(map(repr, vals))[:3]))
+            else:
+                pre = vals.pop()
+                key = tmpl.format(pre, 1)
+                ent = tabs[kind].get(key)
+                if ent is None or ent[0] != k:
+                    probs.append("a %s bond of order %d is printed as %s, which the decoder reads as %s" % (kind.lower(), k, key, "order %r" % (ent[0],) if ent else "nothing"))
+            rep.ob("R3", not probs, args[0], owner, construct="%s prefix for bond order %d" % (kind, k), how="decoder table type == %d" % k,
+                   witness="; ".join(probs) or None, nontrivial=True, key="prefix/%s/%d" % (kind, k))
 
 
 def check_explicit_bond_symbols(ctx, rep, RULE="R6"):
